@@ -11,6 +11,9 @@ THEOREMS = ["parse_str_total", "parse_id_total", "accepted_is_literal", "accepte
             "parse_nuclide_member", "parse_nuclide_total"]
 REQUIRED = ["Props/C10.v"]
 TRANSLATORS = ["tr_pure", "tr_tables", "tr_unicode"]
+SHAPE_KEYS = ["_check_values", "_parse_nuclides", "AbstractInventory::__init__", "InventoryHP::__init__", "AbstractInventory::add",
+              "AbstractInventory::subtract", "AbstractInventory::remove", "DecayData::half_life", "DecayData::branching_fraction",
+              "DecayData::decay_mode", "Nuclide::half_life", "AbstractInventory::half_lives", "_convert_decay_time", "fileio.py::"]
 PARTIAL = ["amount checks (_check_values), unit refusal and stable-activity refusal are decided by the "
            "correspondence stream 'entry_points' only (no theorem yet)"]
 TRUSTED_BASE = [
